@@ -23,12 +23,19 @@ const double kInf = std::numeric_limits<double>::max();
 
 struct Silence { Silence() { std::clog.rdbuf(nullptr); } } silence_clog;
 
-struct Origin { double origin, step; };
+// dyadic: every coordinate is a multiple of 1/8 -> all arithmetic of the library and of the oracle is exact.
+// decimal (1 case in 5): coordinates like 0.3 + j*0.1 that are not representable, as real diagrams are; ties between
+// endpoints are then ties of equal doubles (same j), everything else differs by >= step/2.
+struct Origin { double origin, step; bool dyadic; };
 Origin pick_origin(vh::Rng& r) {
   static const double steps[] = {0.25, 0.25, 0.25, 0.5, 0.125, 1.0};
   static const double origins[] = {0.0, 0.0, 0.0, -3.0, 1.5, 16.0, -0.75};
-  return Origin{origins[r.below(7)], steps[r.below(6)]};
+  static const double dsteps[] = {0.1, 0.3, 0.7};
+  static const double dorigins[] = {0.1, 0.3, -0.7, 0.0};
+  if (r.chance(1, 5)) return Origin{dorigins[r.below(4)], dsteps[r.below(3)], false};
+  return Origin{origins[r.below(7)], steps[r.below(6)], true};
 }
+std::string coords(const Origin& o) { return o.dyadic ? "" : ",coords=decimal"; }
 
 std::string point_class(const std::vector<double>& knots, double x) {
   if (knots.empty() || x < knots.front() || x > knots.back()) return "outside";
@@ -84,7 +91,8 @@ void values_case(vh::Case& c) {
   Diagram D = c18::to_coords(di, o.origin, o.step);
   c18::count_classes(c, di);
   c.log("diagram " + c18::show(D));
-  const std::string cls = "diagram=" + di.cls();
+  const std::string cls = "diagram=" + di.cls() + coords(o);
+  c.count(o.dyadic ? "diag.coords.dyadic" : "diag.coords.decimal");
   const size_t m = D.size();
 
   Persistence_landscape L(D);
@@ -154,6 +162,7 @@ Three gen_three(vh::Case& c, int max_m) {
   vh::Rng& r = c.rng;
   Three t;
   t.o = pick_origin(r);
+  c.count(t.o.dyadic ? "diag.coords.dyadic" : "diag.coords.decimal");
   c18::GenOpts go; go.R = 32; go.max_m = max_m;
   for (int i = 0; i < 3; ++i) {
     if (i > 0 && r.chance(1, 10)) t.di[i] = t.di[r.below(i)];           // identical operands
@@ -166,7 +175,7 @@ Three gen_three(vh::Case& c, int max_m) {
 }
 std::string cls3(const Three& t) {
   bool z = t.di[0].zero || t.di[1].zero || t.di[2].zero, ti = t.di[0].tie() || t.di[1].tie() || t.di[2].tie();
-  return std::string("diagrams=") + (z ? "zero_len" : ti ? "ties" : "generic");
+  return std::string("diagrams=") + (z ? "zero_len" : ti ? "ties" : "generic") + coords(t.o);
 }
 
 const double kScalars[] = {-2.0, -1.0, -0.5, 0.5, 1.5, 2.0, 3.0, 0.0, 1.0, 0.25};
@@ -212,7 +221,7 @@ void algebra_case(vh::Case& c) {
   c.log("abs(L0 - L1)"); c.count("op.abs");
   Persistence_landscape A = Df.abs();
   if (!check_fn(c, A, fd, true, "exact.abs", cls, r, o)) return;
-  if (!check_scalar(c, A.compute_integral_of_landscape(), std::pow(lsdef::norm_p(fd, 1), 1.0), kIntTol, "exact.integral_of_result", cls + ",op=abs", "integral of |L0-L1|")) return;
+  if (!check_scalar(c, A.compute_integral_of_landscape(), lsdef::norm_p(fd, 1), kIntTol, "exact.integral_of_result", cls + ",op=abs", "integral of |L0-L1|")) return;
 
   // compound assignments:  T = L0; T += L1; T -= L2; T *= a; T /= q
   static const double kDiv[] = {2.0, -4.0, 0.5, 1.0, 8.0};
@@ -225,12 +234,6 @@ void algebra_case(vh::Case& c) {
   Persistence_landscape AT = T.abs();
   if (!check_fn(c, AT, ft, true, "exact.abs", cls, r, o)) return;
 
-  c.log("new_abs(L0 - L1)"); c.count("op.new_abs");
-  {
-    std::unique_ptr<Persistence_landscape> NA(Df.new_abs());
-    if (!check_fn(c, *NA, fd, true, "exact.new_abs", cls, r, o)) return;
-  }
-
   // averages of 1..5 landscapes (with repetitions)
   int n = 1 + (int)r.below(5);
   std::vector<Persistence_landscape*> ptrs; Fn fav; std::string lg = "average of";
@@ -241,6 +244,13 @@ void algebra_case(vh::Case& c) {
   if (r.chance(1, 2)) Av = L2;   // compute_average must overwrite whatever was stored
   Av.compute_average(ptrs);
   if (!check_fn(c, Av, fav, false, "exact.average", cls + ",n=" + std::string(n == 1 ? "1" : n == 2 ? "2" : "3+"), r, o)) return;
+
+  // new_abs(): same contract as abs(), result on the heap.  Last, because it is the least used entry point.
+  c.log("new_abs(L0 - L1)"); c.count("op.new_abs");
+  {
+    std::unique_ptr<Persistence_landscape> NA(Df.new_abs());
+    if (!check_fn(c, *NA, fd, true, "exact.new_abs", cls, r, o)) return;
+  }
 
   if (nontrivial_diag(t.di[0]) && nontrivial_diag(t.di[1])) c.nontrivial(vh::hash_str(vh::G().history));
   c.sample("{\"history\":\"" + vh::jesc(vh::G().history.substr(0, 700)) + "\"}");
@@ -259,66 +269,75 @@ void metric_case(vh::Case& c) {
     Fn fav; for (int j = 0; j < 3; ++j) fav.terms.push_back(lsdef::Term{1.0 / 3, &t.D[j]});
     L[2] = Av; f[2] = fav; cls += ",with_average";
   }
-  // distances
+  // The observations below are pure queries, so a mismatch in one section (one exponent, or the inner product)
+  // does not invalidate the others: every section runs, each stops at its own first mismatch.
+  bool ok = true;
   static const double ps[] = {1.0, 2.0, kInf, std::numeric_limits<double>::infinity()};
   static const char* pn[] = {"1", "2", "sup", "sup"};
   for (int pi = 0; pi < 4; ++pi) {
     if (pi == 3 && !r.chance(1, 4)) continue;
-    double p = ps[pi];
+    const double p = ps[pi];
+    const bool sup = pi >= 2;
     std::string sp = cls + ",p=" + pn[pi];
     double d[3][3];
-    for (int i = 0; i < 3; ++i) for (int j = 0; j < 3; ++j) {
+    bool sec = true;
+    for (int i = 0; i < 3 && sec; ++i) for (int j = 0; j < 3 && sec; ++j) {
       c.log("distance(L" + vh::str(i) + ", L" + vh::str(j) + ", p=" + pn[pi] + ")");
       d[i][j] = L[i].distance(L[j], p);
       c.count("op.distance.p" + std::string(pn[pi]));
-      double want = (i == j) ? 0.0 : (pi >= 2 ? lsdef::distance_sup(f[i], f[j]) : lsdef::distance_p(f[i], f[j], p));
-      if (!check_scalar(c, d[i][j], want, kIntTol, i == j ? "exact.distance_self_zero" : "exact.distance", sp,
-                        "distance(L" + vh::str(i) + ",L" + vh::str(j) + ")")) return;
+      double want = (i == j) ? 0.0 : (sup ? lsdef::distance_sup(f[i], f[j]) : lsdef::distance_p(f[i], f[j], (int)p));
+      sec = check_scalar(c, d[i][j], want, kIntTol, i == j ? "exact.distance_self_zero" : "exact.distance", sp,
+                         "distance(L" + vh::str(i) + ",L" + vh::str(j) + ")");
     }
-    for (int i = 0; i < 3; ++i) for (int j = i + 1; j < 3; ++j)
-      if (!check_scalar(c, d[i][j], d[j][i], kIntTol, "exact.distance_symmetric", sp, "d(Li,Lj) vs d(Lj,Li)")) return;
-    for (int i = 0; i < 3; ++i) for (int j = 0; j < 3; ++j) for (int k = 0; k < 3; ++k) {
+    for (int i = 0; i < 3 && sec; ++i) for (int j = i + 1; j < 3 && sec; ++j)
+      sec = check_scalar(c, d[i][j], d[j][i], kIntTol, "exact.distance_symmetric", sp, "d(Li,Lj) vs d(Lj,Li)");
+    for (int i = 0; i < 3 && sec; ++i) for (int j = 0; j < 3 && sec; ++j) for (int k = 0; k < 3 && sec; ++k) {
       c.count("cmp.exact.triangle");
       if (!(d[i][k] <= d[i][j] + d[j][k] + kIntTol * std::max(1.0, d[i][k]))) {
         c.violation("exact.triangle_inequality", sp, "d(" + vh::str(i) + "," + vh::str(k) + ")=" + vh::str(d[i][k]) + " > " + vh::str(d[i][j]) + " + " + vh::str(d[j][k]));
-        return;
+        sec = false;
       }
     }
     // norm = distance to the zero landscape
-    c.log("compute_norm_of_landscape(p=" + std::string(pn[pi]) + ")");
-    for (int i = 0; i < 3; ++i) {
-      double want = pi >= 2 ? lsdef::norm_sup(f[i]) : lsdef::norm_p(f[i], p);
-      if (!check_scalar(c, L[i].compute_norm_of_landscape(p), want, kIntTol, "exact.norm", sp, "norm of L" + vh::str(i))) return;
+    if (sec) c.log("compute_norm_of_landscape(p=" + std::string(pn[pi]) + ")");
+    for (int i = 0; i < 3 && sec; ++i) {
+      double want = sup ? lsdef::norm_sup(f[i]) : lsdef::norm_p(f[i], (int)p);
+      sec = check_scalar(c, L[i].compute_norm_of_landscape(p), want, kIntTol, "exact.norm", sp, "norm of L" + vh::str(i));
     }
+    ok = ok && sec;
   }
   // inner product
   double ip[3][3];
-  for (int i = 0; i < 3; ++i) for (int j = 0; j < 3; ++j) {
+  bool sec = true;
+  for (int i = 0; i < 3 && sec; ++i) for (int j = 0; j < 3 && sec; ++j) {
     c.log("compute_scalar_product(L" + vh::str(i) + ", L" + vh::str(j) + ")");
     ip[i][j] = L[i].compute_scalar_product(L[j]);
     c.count("op.scalar_product");
-    if (!check_scalar(c, ip[i][j], lsdef::inner(f[i], f[j]), kIntTol, "exact.inner_product", cls, "<L" + vh::str(i) + ",L" + vh::str(j) + ">")) return;
+    sec = check_scalar(c, ip[i][j], lsdef::inner(f[i], f[j]), kIntTol, "exact.inner_product", cls, "<L" + vh::str(i) + ",L" + vh::str(j) + ">");
   }
-  for (int i = 0; i < 3; ++i) for (int j = i + 1; j < 3; ++j)
-    if (!check_scalar(c, ip[i][j], ip[j][i], kIntTol, "exact.inner_product_symmetric", cls, "<Li,Lj> vs <Lj,Li>")) return;
-  double a = kScalars[r.below(10)], b = kScalars[r.below(10)];
-  c.log("bilinearity: <" + vh::str(a) + "*L0 + " + vh::str(b) + "*L1, L2> and in the second argument");
-  Persistence_landscape Cmb = a * L[0] + b * L[1];
-  Fn fc = lsdef::plus(lsdef::scaled(f[0], a), lsdef::scaled(f[1], b));
-  double lhs = Cmb.compute_scalar_product(L[2]), lhs2 = L[2].compute_scalar_product(Cmb);
-  c.count("op.scalar_product", 2);
-  double scale = std::fabs(a * ip[0][2]) + std::fabs(b * ip[1][2]);
-  if (!check_scalar(c, lhs, lsdef::inner(fc, f[2]), kIntTol * std::max(1.0, scale), "exact.inner_product", cls + ",combination", "<aL0+bL1,L2>")) return;
-  c.count("cmp.exact.bilinear", 2);
-  if (std::fabs(lhs - (a * ip[0][2] + b * ip[1][2])) > kIntTol * std::max(1.0, scale)) {
-    c.violation("exact.inner_product_bilinear", cls + ",first_argument", "<aL0+bL1,L2>=" + vh::str(lhs) + " but a<L0,L2>+b<L1,L2>=" + vh::str(a * ip[0][2] + b * ip[1][2]));
-    return;
+  for (int i = 0; i < 3 && sec; ++i) for (int j = i + 1; j < 3 && sec; ++j)
+    sec = check_scalar(c, ip[i][j], ip[j][i], kIntTol, "exact.inner_product_symmetric", cls, "<Li,Lj> vs <Lj,Li>");
+  if (sec) {
+    double a = kScalars[r.below(10)], b = kScalars[r.below(10)];
+    c.log("bilinearity: <" + vh::str(a) + "*L0 + " + vh::str(b) + "*L1, L2> and in the second argument");
+    Persistence_landscape Cmb = a * L[0] + b * L[1];
+    Fn fc = lsdef::plus(lsdef::scaled(f[0], a), lsdef::scaled(f[1], b));
+    double lhs = Cmb.compute_scalar_product(L[2]), lhs2 = L[2].compute_scalar_product(Cmb);
+    c.count("op.scalar_product", 2);
+    double scale = std::max(1.0, std::fabs(a * ip[0][2]) + std::fabs(b * ip[1][2]));
+    sec = check_scalar(c, lhs, lsdef::inner(fc, f[2]), kIntTol * scale, "exact.inner_product", cls + ",combination", "<aL0+bL1,L2>");
+    c.count("cmp.exact.bilinear", 2);
+    if (sec && std::fabs(lhs - (a * ip[0][2] + b * ip[1][2])) > kIntTol * scale) {
+      c.violation("exact.inner_product_bilinear", cls + ",first_argument", "<aL0+bL1,L2>=" + vh::str(lhs) + " but a<L0,L2>+b<L1,L2>=" + vh::str(a * ip[0][2] + b * ip[1][2]));
+      sec = false;
+    }
+    if (sec && std::fabs(lhs2 - (a * ip[2][0] + b * ip[2][1])) > kIntTol * scale) {
+      c.violation("exact.inner_product_bilinear", cls + ",second_argument", "<L2,aL0+bL1>=" + vh::str(lhs2) + " but a<L2,L0>+b<L2,L1>=" + vh::str(a * ip[2][0] + b * ip[2][1]));
+      sec = false;
+    }
   }
-  if (std::fabs(lhs2 - (a * ip[2][0] + b * ip[2][1])) > kIntTol * std::max(1.0, scale)) {
-    c.violation("exact.inner_product_bilinear", cls + ",second_argument", "<L2,aL0+bL1>=" + vh::str(lhs2) + " but a<L2,L0>+b<L2,L1>=" + vh::str(a * ip[2][0] + b * ip[2][1]));
-    return;
-  }
-  if (nontrivial_diag(t.di[0]) && nontrivial_diag(t.di[1])) c.nontrivial(vh::hash_str(vh::G().history));
+  ok = ok && sec;
+  if (ok && nontrivial_diag(t.di[0]) && nontrivial_diag(t.di[1])) c.nontrivial(vh::hash_str(vh::G().history));
   c.sample("{\"history\":\"" + vh::jesc(vh::G().history.substr(0, 700)) + "\"}");
 }
 
